@@ -253,12 +253,50 @@ def r01_7(ctx, fx):
             ctx.ob("R01.7", "manager/peer-id-mismatch-never-accepted", not any(n in r for n in oks), site=fn.site(c.node), cfg=fx.cfg)
 
 
+def r01_8(ctx, fx):
+    """the signature check binds the payload to this session only if the verification is strict: ed25519_dalek's `verify` accepts
+    small-order keys / R components, for which one signature is valid for every message (an identity payload that can be replayed
+    into a session with any other static key).  The Ed25519 verification reachable from RemotePublicKey::verify is `verify_strict`."""
+    n = 0
+    for key in sorted(fx.find(r"^crypto::ed25519::PublicKey::verify(::\{closure#\d+\})?$")):
+        fn = fx.fn(key)
+        for c in fn.calls(r"ed25519_dalek::(VerifyingKey|Verifier)(<.*>)?>?::verify\w*$|Verifier>?::verify$"):
+            n += 1
+            ctx.bodies.add((fx.cfg, key))
+            ctx.ob("R01.8", "ed25519::PublicKey::verify/uses-verify_strict", c.name.endswith("::verify_strict"), site=fn.site(c.node), cfg=fx.cfg,
+                   detail="callee %s" % c.name)
+    ctx.anchor("R01.8", "ed25519 verification call", n, 1, cfg=fx.cfg)
+
+
+def r01_9(ctx, fx):
+    """the reported peer id is the hash of the proven key: protobuf decoding is lenient (field order, unknown fields), so the id must be
+    computed from the canonical re-encoding of the decoded key (or the received bytes must be compared with it) - not from the raw
+    received bytes alone, which a remote can vary freely for one and the same key."""
+    fn = ctx.fn(fx, N + "parse_and_verify_peer_id", "R01.9")
+    if fn is None:
+        return
+    mk = fn.calls(r"PeerId::from_public_key_protobuf$|PeerId::from_public_key$")
+    ctx.anchor("R01.9", "parse_and_verify_peer_id: PeerId construction", len(mk), 1, cfg=fx.cfg)
+    for c in mk:
+        rs = guards.rootstrs(fn, c.args[0])
+        reenc = any(re.search(r"Message>?::(encode_to_vec|encode|encode_length_delimited_to_vec)$|to_protobuf_encoding$", x) for x in rs)
+        cmpd = False
+        for e in fn.calls(r"::(eq|ne)$"):
+            ra = [guards.rootstrs(fn, a) for a in e.args]
+            if any(any(re.search(r"Message>?::encode", x) for x in r_) for r_ in ra):
+                cmpd = True
+        ctx.ob("R01.9", "parse_and_verify_peer_id/peer-id-from-the-canonical-encoding-of-the-decoded-key", reenc or cmpd, site=fn.site(c.node), cfg=fx.cfg,
+               detail="argument re-encoded from the decoded key: %s; received bytes compared with the re-encoding: %s; roots %s" % (reenc, cmpd, sorted(rs)[:8]))
+
+
 def run(ctx):
     for cfg in ctx.configs():
         fx = ctx.facts(cfg)
         if cfg == "default":
             r01_1_2(ctx, fx)
             r01_7(ctx, fx)
+            r01_8(ctx, fx)
+            r01_9(ctx, fx)
         r01_3(ctx, fx)
         r01_4(ctx, fx)
         r01_5(ctx, fx)
